@@ -81,6 +81,7 @@ pub fn headers(conditional: bool) -> Vec<(&'static str, &'static str)> {
         ("Connection", "keep-alive"), ("Connection", "close"), ("Expect", "100-continue"), ("Max-Forwards", "0"), ("X-Http-Method-Override", "DELETE"), ("X-Original-URL", "/admin"), ("Content-Length", "0"), ("Content-Type", "application/json"),
         ("Pragma", "no-cache"), ("Priority", "u=0"), ("Early-Data", "1"), ("Accept-Datetime", "Thu, 31 May 2007 20:35:00 GMT"), ("Service-Worker", "script"), ("Last-Event-ID", "7"),
     ]);
+    v.extend_from_slice(SWITCH_HEADERS);
     if !conditional {
         v.retain(|(n, _)| !n.starts_with("If-") && *n != "Range" && *n != "Cache-Control" && *n != "Expect" && *n != "Content-Length");
     }
@@ -108,6 +109,10 @@ pub fn scenario(prop: &'static str, seed: u64, idx: u64) -> Scenario {
     sc.request_size = 10000;
     sc.yields = pick_yields(&mut rng);
     sc.tree = tree(prop);
+    // (odd indices: reversed modification times, so that a file is newer than its compressed sibling)
+    if idx % 2 == 1 {
+        sc.tree.mtime_mode = 7;
+    }
     let hs = headers(prop != "C02");
     let ms = methods(prop);
     let i = idx as usize;
